@@ -42,11 +42,14 @@ PROPS = {
         "level_note": _PURE_NOTE,
     },
     "C02": {
-        "targets": ["spowtd.classify:find_stable_matching"],
+        "targets": ["spowtd.classify:find_stable_matching", "spowtd.classify:find_stable_matching#optimal"],
         "native_only": ["spowtd.classify:disambiguate_matching"],
         "bounded": [_tables("C02")],
         "level_text": "Unbounded proof of the deferred-acceptance loop: loop invariants I1-I5 give at exit that no candidate "
-                      "pair blocks the result (storm side by list position, rise side by preference value). The link from list "
+                      "pair blocks the result (storm side by list position, rise side by preference value); and, with strict "
+                      "preferences of the rises, for an ARBITRARY well-formed stable matching mu (logical variables) the invariant "
+                      "'no storm has lost its mu-partner' gives that every storm does at least as well as in mu: the result is the "
+                      "storm-optimal stable matching, hence independent of the order in which storms are served. The link from list "
                       "position to duration difference (disambiguate_matching) and the table level are bounded stand-ins.",
         "level_note": _PURE_NOTE,
     },
@@ -224,16 +227,22 @@ PROPS = {
         "level_note": "The Lean file is compiled in the thorough tier here (it is compiled in the quick tier of C05).",
     },
     "C07": {
-        "targets": ["spowtd.classify:classify_interstorms", "spowtd.classify:match_all_storms",
+        "targets": ["spowtd.classify:classify_interstorms", "spowtd.classify:classify_interstorms#uf_rounding",
+                    "lemma:origin_independence", "spowtd.classify:match_all_storms",
                     "spowtd.load:generate_timestamped_rows"],
         "bounded": [{"run": "bounded.curves_checks:run_C07",
                      "what": "bounded stand-in: the whole workflow on datasets shifted by multiples of the time step (30- and 20-minute "
                              "grids, with an increment exactly at threshold x step) and declared in another fixed-offset zone: flags, "
                              "intervals, matching and both master curves must be unchanged"}],
-        "level_text": "In this revision the origin-independence itself is decided by the bounded stand-in; the proved contracts of "
-                      "classify_interstorms / match_all_storms state the flags and intervals as functions of epoch differences and "
-                      "levels only (floats as reals), which is the mathematical half of the claim.",
-        "level_note": "The rounding half (relational proof with uninterpreted rounding functions, DESIGN 4.3) is not built yet.",
+        "level_text": "Relational proof with UNINTERPRETED rounding: classify_interstorms is re-verified with every floating-point "
+                      "operation read as an uninterpreted deterministic function of its operands, and its rise flag is shown to be "
+                      "flag_jump evaluated the same way; lemma origin_independence then proves, in that mode, that adding one integer "
+                      "to every epoch leaves the rise / unexplained-rise / interstorm flags unchanged (the absolute epoch reaches "
+                      "floating-point operations only through exact integer differences). match_all_storms' rows are functions of "
+                      "threshold x step and of levels only; timestamps via the localize contract. The whole-workflow statement "
+                      "(matching, master curves, zones) is exercised by the bounded stand-in.",
+        "level_note": "UF-rounding mode assumes only: a quotient of non-zero operands is non-zero with the sign of the exact "
+                      "quotient (no underflow); int -> float conversion of epoch differences exact (< 2^53).",
     },
     "C20": {
         "targets": ["spowtd.classify:classify_intervals", "spowtd.classify:populate_zeta_interval",
